@@ -1381,3 +1381,60 @@ def validate_trans_modifier(run, n=60):
             if bad <= 2:
                 run.tie_broken("translator", "generated trans() modifier vs the real function", "arguments %r: real %s generated %s" % (forms, real, a))
     return len(cases)
+
+
+def validate_reference_get(run, n=40):
+    """the regenerated Reference_Data.get against the real method: the real built-in element table (a sample of its rows, every property), [Species]-style extra data
+    that overrides some properties of elements, describes labels that are not elements, or is absent; queries for every combination incl. unknown labels / properties"""
+    import atsim.potentials.config
+    from atsim.potentials.referencedata import Reference_Data
+    from atsim.potentials.referencedata._data import reference_data
+    from atsim.potentials.referencedata._reference_data import Unknown_Species_Exception, Unknown_Property_Exception
+    ok, log = build_gen()
+    if not ok:
+        run.tie_broken("translator", "Gen/Logic.lean (reference data)", "the regenerated definitions (or their driver) do not build: " + log[-600:])
+        return 0
+    rng = run.rng
+    elements = sorted(reference_data.keys())
+    cases, reqs = [], []
+    for _ in range(n):
+        els = rng.sample(elements, 4)
+        vals, ids = {}, [0]
+
+        def vid(v):
+            ids[0] += 1
+            vals[ids[0]] = v
+            return ids[0]
+        builtin = [[e, [[k_, vid(v_)] for k_, v_ in reference_data[e]._asdict().items()]] for e in els]
+        props = [k_ for k_, _ in builtin[0][1]]
+        extra_py, extra_js = {}, []
+        for lab in rng.sample(els, rng.randint(0, 3)) + rng.sample(["Xx", "Qq"], rng.randint(0, 2)):
+            d_ = {}
+            for k_ in rng.sample(props + ["charge", "covalent_radius"], rng.randint(0, 3)):
+                d_[k_] = rng.randint(1000, 9999) / 8.0
+            extra_py[lab] = d_
+            extra_js.append([lab, [[k_, vid(v_)] for k_, v_ in d_.items()]])
+        queries = [[s_, p_] for s_ in els + ["Xx", "Qq", "Zz"] for p_ in props + ["charge", "nosuch"]]
+        cases.append((extra_py, queries, vals))
+        reqs.append(dict(op="reference_get", builtin=builtin, extra=extra_js, queries=queries))
+    bad = 0
+    for (extra_py, queries, vals), a in zip(cases, query_gen(reqs)):
+        rd = Reference_Data(extra_py)
+        real = []
+        for s_, p_ in queries:
+            try:
+                real.append(rd.get(s_, p_))
+            except Unknown_Species_Exception:
+                real.append("unknownSpecies")
+            except Unknown_Property_Exception:
+                real.append("unknownProperty")
+            except Exception as e:
+                real.append("internal: %s" % type(e).__name__)
+        gen = [x if isinstance(x, str) else vals[x] for x in a]
+        run.traces += 1
+        run.dist["translator-validation/reference_get"] += 1
+        if real != gen:
+            bad += 1
+            if bad <= 2:
+                run.tie_broken("translator", "generated Reference_Data.get vs the real method", "extra data %s: %s" % (extra_py, [(q, r_, g_) for q, r_, g_ in zip(queries, real, gen) if r_ != g_][:4]))
+    return len(cases)
